@@ -427,9 +427,14 @@ class SInt:
         return SReal.of(o) / SReal.of(s)
 
     def __and__(s, o):
-        if not (isinstance(o, int) and o >= 0 and (o & (o + 1)) == 0) or s.lo < 0:
-            raise ShimUnsupported('bit-and with a non 2^k-1 mask')
-        return SInt.mk(s.e % (o + 1), 0, min(o, s.hi))
+        if not (isinstance(o, int) and o >= 0) or s.lo < 0:
+            raise ShimUnsupported('bit-and with a symbolic or negative operand')
+        if (o & (o + 1)) == 0:
+            return SInt.mk(s.e % (o + 1), 0, min(o, s.hi))
+        if o.bit_length() > 40:
+            raise ShimUnsupported('bit-and with a wide irregular mask')
+        terms = [((s.e / (1 << b)) % 2) * (1 << b) for b in range(o.bit_length()) if (o >> b) & 1]
+        return SInt.mk(z3.Sum(terms), 0, min(o, s.hi))
 
     __rand__ = __and__
 
